@@ -41,12 +41,15 @@ FLOORS = {
         "L2": 1,
         "L3": 1,
         "L4": 3,
-        "T4": 2
+        "T4": 2,
+        "DL1": 1,
+        "L6": 1
     },
     "C09": {
         "E1": 8,
         "E2": 3,
-        "T4": 1
+        "T4": 1,
+        "DL1": 1
     },
     "C10": {
         "IDX": 4,
@@ -87,7 +90,9 @@ FLOORS = {
     },
     "C17": {
         "CU1": 4,
-        "CU3": 24
+        "CU3": 24,
+        "CU4": 1,
+        "BW1": 6
     },
     "C18": {
         "H1": 2,
@@ -98,7 +103,9 @@ FLOORS = {
         "H6": 3
     },
     "C19": {
-        "Q1": 1
+        "Q1": 1,
+        "W1": 2,
+        "W2": 204
     },
     "C20": {
         "B1": 3,
@@ -361,30 +368,34 @@ def c18(prog, rep):
     from . import hashrules as H
     H.rule_c18(prog, rep)
     rep.explanation = (
-        'Algorithm-skeleton agreement, decided on the AST without computing any hash: each function is normalised into an ordered '
-        'list of events (x *= C, x = rotl(x, a), x ^= y, x = x*5 + C, ...; constants folded, const locals substituted, rotates '
-        'recognised, commutative operands sorted) and compared, modulo consistent variable renaming, with the published algorithm: '
-        'MurmurHash3 x86_32 and x64_128 (block framing nblocks = n/B, tail = data + nblocks*B, switch on n & (B-1); loop body; the '
-        'tail byte law case k: K ^= tail[k-1] << 8*((k-1) mod W) with descending fall-through; tail mixes; finaliser; seed 0; result '
-        'word order), FNV-1 32/64 (offset basis; prime obtained by evaluating the shift-add statement as a linear form; multiply then '
-        'xor), MD5 (initial state; all 64 steps: register rotation, message word index, shift amount, constant = floor(2^32*|sin i|); '
-        'the four round functions by truth table). H1/H2: no branch depends on a data byte and counted scans test the count first '
-        '(pure function of exactly the given bytes). H6: the containers use murmur3_32 for slots and MD5 for key digests. '
-        'Not decided: value equality for all inputs (MD5Update/Final buffering and padding arithmetic are not modelled).')
-    rep.assumptions += ['MD5Update/MD5Final buffering, padding and length encoding are not modelled',
+        'Agreement with the published algorithms as value graphs, decided on the AST without computing any hash: each function is '
+        'turned by forward substitution (helpers inlined, const locals substituted, rotates recognised, commutative operands '
+        'sorted, width-normalised) into hash-consed value graphs compared with graphs built from the published algorithm by the '
+        'same constructors: MurmurHash3 x86_32 and x64_128 (block framing nblocks = n/B; loop body as state-out = f(state-in, block '
+        'words); tail + finaliser for every length residue n & (B-1), selected by constant propagation through the switch / '
+        'if-chain), FNV-1 32/64 (offset basis, per-byte step (h*prime) ^ byte with the shift-add form normalised to the multiplier, '
+        'result), MD5 (initial state; the whole 64-step block transform with constants floor(2^32*|sin i|) and round functions '
+        'canonicalised by truth table). H7: MD5 padding in the table form the code has today - padding table 0x80,0..., pad length '
+        'folded for the 64 buffered-byte counts, bit count encoded before the padding updates and appended last. H1/H2: no branch '
+        'depends on a data byte and counted scans test the count first. H6: the containers use murmur3_32 for slots and MD5 for key '
+        'digests. Not decided: MD5Update buffering, the file-range reader of qhashmd5_file.')
+    rep.assumptions += ['MD5Update buffering and qhashmd5_file range reading are not modelled',
                         'integer widths/overflow behaviour of the C types are as the published algorithms assume (uint32_t/uint64_t)']
 
 
 def c20(prog, rep):
     from . import configrules as CR
     CR.rule_c20(prog, rep)
+    CR.rule_scan_abandon(prog, rep)
     rep.explanation = (
         'Narrow structural clauses of the Apache-style parser (qaconf.c): B1 the literal set the boolean classifier compares against '
         '(case-insensitively) contains all eight documented spellings and maps the two polarities and "not a boolean" to three '
         'distinct results; B2 the boolean branch of the type check accepts exactly the two boolean outcomes and can write both "1" '
         'and "0"; B3 every assignment that makes the parser fail comes from an expansion that records a message with file path and '
         'line number, or propagates a nested failure; B4 the parser returns `failed ? -1 : count`, the count is incremented at one '
-        'site reached by every loop iteration that created a directive record, and nested counts are added. Not decided: the '
+        'site reached by every loop iteration that created a directive record, and nested counts are added; B5 (INI parser, '
+        'qconfig.c) the ${...} scan over a value is left early only on edges on which the end of the text was seen or the restart '
+        'flag was set, so an unresolved reference is stepped over and references to its right are still expanded. Not decided: the '
         'callback stream / INI entry list as a function of the document (tokeniser, quoting, scopes, ${} expansion).')
     rep.assumptions += ['the callback stream, argument splitting/unescaping, section scopes and the INI-style parser are not decided']
 
@@ -397,13 +408,20 @@ def c08(prog, rep):
     E.rule_r2(prog, rep, [LT.UNIT])
     E.rule_r2_move(prog, rep, [LT.UNIT])
     E.rule_r2_fill(prog, rep, [LT.UNIT])
+    from . import dlist as DL
+    DL.rule_unlink(prog, rep, LT.UNIT)
+    DL.rule_matcher(prog, rep, LT.UNIT)
+    DL.rule_decode_last(prog, rep)
+    DL.rule_load_appends(prog, rep)
     rep.explanation = (
         'Structural clauses of the ordered-multimap property in qlisttbl.c: L1 load returns a count incremented in the loading loop '
         'under the put result; L2 the sort exchanges neighbours only for a strictly positive comparison (stability) and exchanges '
         'every payload field; L3 save/load use the inverse codec pair under their flags and the same separator parameter; L4 each of '
         'the four behaviour options sets its own field and each field is read by the operation it governs; L5 every direction '
         'choice maps forward to first/next and backward to last/prev, insert-at-top links before first; T4 the entry count moves '
-        'with node creation/destruction; R2 payload pointers and sizes stay paired. Not decided: multimap behaviour over histories '
+        'with node creation/destruction; R2 payload pointers and sizes stay paired; DL1 unlink protocol of the doubly linked chain; L6 key '
+        'equality only through the option-selected matcher slots; L8 the loader trims/splits still-encoded text; L9 the loader never '
+        'consults the insert-at-top option. Not decided: multimap behaviour over histories '
         'and the 16 option combinations.')
     rep.assumptions += ['behaviour over histories under the 16 option combinations is not decided']
 
@@ -415,13 +433,19 @@ def c09(prog, rep):
     K.rule_t4(prog, rep, om, units=[LR.LIST])
     E.rule_r2(prog, rep, [LR.LIST])
     E.rule_r2_fill(prog, rep, [LR.LIST])
+    from . import dlist as DL
+    DL.rule_unlink(prog, rep, LR.LIST)
     rep.explanation = (
         'E1: through the method table, every queue insert variant (push/pushstr/pushint) resolves to one list end and every '
         'remove/peek variant (pop*/get*) to the opposite end (FIFO); every stack variant to the same end (LIFO); every grow add '
         'variant appends at the tail and the flatteners walk first->next. E2: the list\'s first/last wrappers are the 0 / -1 forms of '
         'the *at operations. E3: the byte total is changed by exactly the stored element size wherever the count changes. E4: the '
-        'link-in is dominated by the size-limit and index-range refusals. T4/R2: count and payload/size pairing in qlist.c. Not '
-        'decided: sequence behaviour of the list over histories and index arithmetic for every (n, index).')
+        'link-in is dominated by the size-limit and index-range refusals. E3 also: the recorded size of a linked element is not '
+        'changed without adjusting the byte total. E5: the index-to-node lookup starts its scan only under the must-facts '
+        '0 <= index < num, the signedness of each comparison taken from its operand types. DL1: unlink protocol of the doubly '
+        'linked chain (each side tested; end pointer re-assigned where the node is at that end; neighbour re-linked where it is '
+        'not). T4/R2: count and payload/size pairing in qlist.c. Not decided: sequence behaviour of the list over histories and '
+        'which element the nearest-end walk reaches.')
     rep.assumptions += ['sequence behaviour over histories is not decided']
 
 
@@ -433,6 +457,10 @@ def c17(prog, rep):
     from . import cursor as CU, copy as C
     CU.rule_cu1(prog, rep)
     CU.rule_cu3(prog, rep, PARSER_UNITS)
+    from . import argvrules as AR
+    AR.rule_argv_cells(prog, rep)
+    from . import bufrules as BW
+    BW.rule_bw1(prog, rep, PARSER_UNITS)
     C.rule_m1(prog, rep, ['src/utilities/qencode.c', 'src/extensions/qaconf.c', 'src/extensions/qconfig.c', 'src/internal/qinternal.c'])
     rep.explanation = (
         'CU1: abstract interpretation over each enumerated scan function (URL/Base64/hex decoders, query parser, word splitter, the '
@@ -442,7 +470,12 @@ def c17(prog, rep):
         'needs j <= window(p); a cursor may reach one-past-the-terminator but not be dereferenced there or moved further; non-NUL '
         'stores need j < window (in-place decoders never write ahead of the reader, never over the terminator). All paths of the CFG '
         'are explored (finite capped state space: up to ~28k abstract steps for _parse_inline). CU3: definite-assignment (must) analysis '
-        'for every scalar/pointer local of the parser units, goto edges included. Not decided: termination (the ${} expansion loop\'s '
+        'for every scalar/pointer local of the parser units, goto edges included. CU4: counted-cell typestate for the argv array of '
+        'the per-line record (exact saturating count of store-and-increment steps since allocation, partitioned by the literal-valued '
+        'loop flags so the tokenizer loop is known to run once): argv[K] is read only after K+1 cells were stored. BW1: every '
+        'explicit-extent write into a local buffer of known capacity (local char array or malloc\'ed local) fits - capacity minus '
+        '(offset + length) folds to a constant >= 0 with locals expanded through their definitions and sizeof evaluated by the '
+        'compiler, or the variable part is bounded by a dominating comparison. Not decided: termination (the ${} expansion loop\'s '
         'progress is a runtime fact) and accesses outside the enumerated cursor idioms (computed indexes, strlen-based tails).')
     rep.assumptions += ['string parameters listed in the site table are NUL-terminated', 'termination is not decided',
                         'count-bounded index loops (i < n) and computed indexes are not analysed by CU1']
@@ -452,13 +485,22 @@ def c19(prog, rep):
     from . import index as IX, copy as C
     IX.rule_q1(prog, rep)
     C.rule_m1(prog, rep, ['src/utilities/qstring.c'])
+    from . import strrules as SR
+    SR.rule_trimset(prog, rep)
+    SR.rule_casemap(prog, rep)
+    SR.rule_tailindex(prog, rep)
+    SR.rule_bytetable_index(prog, rep, ['src/utilities/qstring.c'], control=['src/utilities/qencode.c'])
     rep.explanation = (
         'Q1: for the size-parameterised routines of qstring.c (qstrcpy, qstrncpy, qstrgets - found by their `char *dst, size_t size` '
         'signature) every write into the destination is bounded: block copies and indexed stores need the must-fact len < size '
         '(from the clamp `if (n >= size) n = size - 1`, facts derived from comparisons and from assignments), delegation must pass '
         'dst and size unchanged to an already verified routine, and cursor writes must sit in a loop bounded by i < size - 1 in which the '
-        'cursor advances no faster than i. M1: in-place routines use overlap-safe copies. The functional clauses (what trim / replace / '
-        'tokenizer compute) and the output bound of qstrreplace are value computations and are not decided.')
+        'cursor advances no faster than i. M1: in-place routines use overlap-safe copies. W1: each byte-steered loop of the trim '
+        'routines continues exactly for {SP,TAB,CR,LF} (loop condition evaluated for all 256 bytes, byte-independent conjuncts '
+        'neutral). W2: the per-byte effect of the upper/lower-casing loops equals the ASCII case map. W3: 256-entry tables are '
+        'indexed by values provably in 0..255 (control instances: the tables of qencode.c). W4: s[len - k] needs the must-fact '
+        'len >= k. The functional clauses of replace / tokenizer / line reader and the output bound of qstrreplace are value '
+        'computations and are not decided.')
     rep.assumptions += ['functional equality with the documented string functions is not decided']
 
 
